@@ -80,7 +80,7 @@ def mutants_of(fname, path):
     res = []
     for i, l in lines:
         bare = strip_strings(l)
-        for a, b in REL:
+        for a, b in ([] if os.environ.get("MUT_EXT") else REL):
             start = 0
             while True:
                 j = bare.find(a, start)
@@ -98,12 +98,37 @@ def mutants_of(fname, path):
                 new = l[:j] + b + l[j + len(a):]
                 res.append((fname, i, "%s->%s" % (a.strip() or "''", b.strip() or "''"), new))
         # small integer literals (not in const tables / shifts of masks)
-        for m in re.finditer(r"(?<![\w.\]])(\d{1,2})(?![\w.\d])", bare):
+        for m in ([] if os.environ.get("MUT_EXT") else re.finditer(r"(?<![\w.\]])(\d{1,2})(?![\w.\d])", bare)):
             v = int(m.group(1))
             if v > 64 or "const " in bare or "0x" in bare:
                 continue
             new = l[:m.start(1)] + str(v + 1) + l[m.end(1):]
             res.append((fname, i, "%d->%d" % (v, v + 1), new))
+        if os.environ.get("MUT_EXT"):
+            # second operator set: range ends, index shifts, narrowing casts, swapped comparator arguments,
+            # Some -> None results, early `return` removal of guards
+            for m in re.finditer(r"\.\.([A-Za-z_][\w\.\(\)]*)\]", bare):
+                res.append((fname, i, "range end -1", l[:m.start(1)] + m.group(1) + " - 1" + l[m.end(1):]))
+            for m in re.finditer(r"\[([A-Za-z_][\w\.]*)\.\.", bare):
+                res.append((fname, i, "range start +1", l[:m.start(1)] + m.group(1) + " + 1" + l[m.end(1):]))
+            for m in re.finditer(r"\[([a-z_][\w\.]*)\](?!\s*=[^=])", bare):
+                res.append((fname, i, "index +1", l[:m.start(1)] + m.group(1) + " + 1" + l[m.end(1):]))
+            for a, b in [(" as u32", " as u16"), (" as usize", " as u8"), (" as u64", " as u32"), (" as u8", " as u32 as u8")]:
+                j = bare.find(a)
+                if j >= 0 and a != " as u8":
+                    res.append((fname, i, "%s->%s" % (a.strip(), b.strip()), l[:j] + b + l[j + len(a):]))
+            for m in re.finditer(r"\.cmp\(([^,()]+), ([^,()]+)\)", bare):
+                res.append((fname, i, "swap cmp args", l[:m.start(1)] + m.group(2) + ", " + m.group(1) + l[m.end(2):]))
+            m = re.match(r"^(\s*)(return )?Some\((.*)\)(;?)$", l.split("//")[0].rstrip())
+            if m and "=>" not in l:
+                res.append((fname, i, "Some->None", m.group(1) + (m.group(2) or "") + "None" + m.group(4)))
+            for a, b in [(".wrapping_add(", ".wrapping_sub("), (".wrapping_shr(", ".wrapping_shl("), (".saturating_mul(", ".saturating_add("), (".checked_add(", ".checked_sub("), (".len()", ".len() + 1"), (".seek_to_first()", ".reset()"), (".advance()", ".valid()"), (".is_ok()", ".is_err()"), ("Ok(true)", "Ok(false)"), ("Ok(false)", "Ok(true)"), (".clone()", ".clone()")]:
+                if a == b:
+                    continue
+                j = bare.find(a)
+                if j >= 0:
+                    res.append((fname, i, "%s->%s" % (a, b), l[:j] + b + l[j + len(a):]))
+            continue
         # statement deletion: plain call statements and field assignments
         s = l.strip()
         if re.match(r"^(self\.)?[\w\.]+\([^;]*\);$", s) or re.match(r"^self\.[\w\.]+ (\+|-)?= [^;]*;$", s):
